@@ -64,4 +64,22 @@ DivisionUnique ==
           /\ ModOK(wa, wb, q, r) => (r = (IF b = 0 THEN Zero ELSE W(a % b)))
           /\ SModOK(wa, wb, q, r) => (r = (IF b = 0 THEN Zero ELSE W(U(TRem(S(a), S(b))))))
 Exponent == ExpW(wa, wb) = W(PowMod(a, b))
+
+(* the 3-operand and byte-indexed operations, with c ranging over a few third operands *)
+Thirds == {0, 1, 2, 3, M - 1, M \div 2}
+Wide(x) == [i \in 1..(2 * N) |-> (x \div (B ^ (i - 1))) % B]     \* quotient hints are 2N limbs
+Ternary ==
+    \A c \in Thirds :
+        LET wc == W(c) IN
+        /\ AddModOK(wa, wb, wc, IF c = 0 THEN Pad(Zero, 2 * N) ELSE Wide((a + b) \div c), IF c = 0 THEN Zero ELSE W((a + b) % c))
+        /\ MulModOK(wa, wb, wc, IF c = 0 THEN Pad(Zero, 2 * N) ELSE Wide((a * b) \div c), IF c = 0 THEN Zero ELSE W((a * b) % c))
+        /\ (c # 0 /\ (a + b) % c # 1 % c) => ~AddModOK(wa, wb, wc, Wide((a + b) \div c), W(1))
+NBytes == Bits \div 8
+Bytes ==
+    /\ (NBytes >= 1) =>
+         ByteW(wa, wb) = (IF a >= NBytes THEN Zero ELSE W((b \div (2 ^ (8 * (NBytes - 1 - a)))) % 256))
+    /\ (NBytes >= 1) =>
+         SignExtendW(wa, wb) = (IF a >= NBytes - 1 THEN wb
+                                ELSE LET low == b % (2 ^ (8 * (a + 1))) IN
+                                     IF low >= 2 ^ (8 * a + 7) THEN W(M - (2 ^ (8 * (a + 1))) + low) ELSE W(low))
 =================================================================================
